@@ -338,9 +338,22 @@ func newExplainer(fontInfo *sfnt.Font) *explainer {
 		a, b := cmap.CodeRange()
 		for r := a; r <= b; r++ {
 			gid := cmap.Lookup(r)
-			if gid != 0 {
-				mappings[gid] = fmt.Sprintf("%q", string([]rune{r}))
+			if gid == 0 {
+				continue
 			}
+			// Only use the string notation for characters which the parser
+			// reads back as written: printable characters and the escapes
+			// \n, \r, \t, \\ and \".  Other characters (for example U+0000
+			// or U+00A0) would be written as \x00 or \u00a0, which the
+			// parser does not understand; such glyphs are written by name.
+			q := fmt.Sprintf("%q", string([]rune{r}))
+			switch {
+			case q == `"`+string([]rune{r})+`"`:
+			case r == '\n' || r == '\r' || r == '\t' || r == '\\' || r == '"':
+			default:
+				continue
+			}
+			mappings[gid] = q
 		}
 	}
 
